@@ -71,6 +71,10 @@ def ghost(it, env):
     fp = it.ctx.cell(w.attrs['fp'])
     from pyvc import lists
     from pyvc.values import SeqCell, SeqString
+    md = env.get('metadata')
+    if isinstance(md, VRef) and isinstance(it.ctx.cell(md), DictCell):
+        c = it.ctx.cell(md)
+        it.ctx.ghost['metadata0'] = (md.ref, dict(c.items), c.sym)
     return {'out0': VStr(fp.data, True),
             # placeholder until the indentation loop names its line list
             'lines_g': it.ctx.alloc(SeqCell(
@@ -342,6 +346,24 @@ def register(engine, only_prev=None, own_prepare=False):
         return VBool(z3.And(eq(it.ctx, pa['encoding'], own),
                             pa['inherit_encoding'].e ==
                             z3.BoolVal(want_inherit)))
+    def f_dict_unchanged(it, args, kw):
+        """C18: the metadata dictionary handed to write_meta is the same
+        object with the same items as on entry."""
+        md = args[0]
+        if not isinstance(md, VRef):
+            return VBool(True)
+        ref0, items0, sym0 = it.ctx.ghost['metadata0']
+        c = it.ctx.cell(md)
+        if md.ref != ref0 or set(c.items) != set(items0):
+            return VBool(False)
+        from pyvc.symex import eq
+        conj = [eq(it.ctx, c.items[k], items0[k]) for k in items0]
+        if (c.sym is None) != (sym0 is None):
+            return VBool(False)
+        if sym0 is not None:
+            conj += [c.sym[0] == sym0[0], c.sym[1] == sym0[1]]
+        return VBool(z3.And(conj + [z3.BoolVal(True)]))
+    sf['dict_unchanged'] = VFunc(f_dict_unchanged, 'dict_unchanged')
     sf['prepared'] = VFunc(f_prepared, 'prepared')
     sf['prepared_le'] = VFunc(f_prepared_le, 'prepared_le')
     sf['target'] = VFunc(f_target, 'target')
@@ -385,7 +407,8 @@ def register(engine, only_prev=None, own_prepare=False):
             {'metadata': OneOf(SymDict(), NoneT(), Str()),
              'encoding': opt_encoding(), 'meta_format': Box()},
             'encoding=encoding, format=meta_format, '
-            'length=len(prepared())')
+            'length=len(prepared())'
+            ).ensures.append(('arg_unchanged', 'dict_unchanged(metadata)'))
     content('write_diff', 'diff',
             {'content': Box(), 'diff_type': Box(),
              'encoding': opt_encoding(), 'line_endings': Box()},
